@@ -61,6 +61,33 @@ def make_expressible(spec):
             st['name'] = 'sn'
     if s['project'] is not None:
         s['project']['items'] = [[k, v.replace('\n', ' ')] for k, v in s['project']['items'] if EX.BARE.match(k)]
+    def fix_text(x):
+        if isinstance(x, str):
+            return x.replace("'''", "''")
+        return x
+
+    def walk(o):
+        if isinstance(o, dict):
+            for k in list(o):
+                if k in ('note', 'text') and isinstance(o[k], str):
+                    o[k] = fix_text(o[k])
+                elif k == 'default' and isinstance(o[k], dict) and o[k]['k'] == 'str':
+                    o[k]['v'] = fix_text(o[k]['v'])
+                elif k in ('props', 'items') and isinstance(o[k], list) and o[k] and isinstance(o[k][0], list):
+                    o[k] = [[('p_' + kk) if any(kk.upper().startswith(w.upper()) for w in EX.COL_SETTING_KW + ('indexes',)) else kk, fix_text(vv)]
+                            for kk, vv in o[k]]
+                else:
+                    walk(o[k])
+        elif isinstance(o, list):
+            for x in o:
+                walk(x)
+    walk(s)
+    for t in s['tables']:
+        for ix in t['indexes']:
+            ix['subjects'] = [sb if 'col' not in sb or EX.BARE.match(t['columns'][sb['col']]['name']) else {'expr': 'x + 1'}
+                              for sb in ix['subjects']]
+            if ix['name']:
+                ix['name'] = fix_text(ix['name'])
     return canonical_ref_order(s)
 
 
@@ -101,7 +128,8 @@ def job(j):
     from pydbml import PyDBML
     try:
         if kind == 'parsed':
-            spec = SP.normalise_for_spelling(GD.gen_spec(rng, wild=False, max_tables=4), IT.norm_impl)
+            spec = GD.gen_spec(rng, wild=False, max_tables=4)
+            spec = make_expressible(spec) if rng.random() < 0.75 else SP.normalise_for_spelling(spec, IT.norm_impl)
             if not SP.spellable(spec):
                 return {'skip': 'unspellable'}
             text, _, _ = SP.spell(spec, rng, {'varied': True})
